@@ -286,6 +286,16 @@ class VModule(V):
     name: str
 
 
+def zite(c, x, y):
+    if x.eq(y):
+        return x
+    if z3.is_true(c):
+        return x
+    if z3.is_false(c):
+        return y
+    return z3.If(c, x, y)
+
+
 def ite_val(c, a: V, b: V) -> V:
     """value-level if-then-else for two values of compatible kind"""
     if isinstance(a, VNone) and isinstance(b, VNone):
@@ -300,7 +310,7 @@ def ite_val(c, a: V, b: V) -> V:
         return VOpt(z3.If(c, a.none, b.none), ite_val(c, a.val, b.val))
     a, b = unify_num(a, b)
     if isinstance(a, VObj) and isinstance(b, VObj):
-        return VObj(z3.If(c, a.t, b.t), tuple(dict.fromkeys(a.classes + b.classes)))
+        return VObj(zite(c, a.t, b.t), tuple(dict.fromkeys(a.classes + b.classes)))
     if type(a) is not type(b):
         raise TypeError(f"ite over different value shapes: {a} / {b}")
     if isinstance(a, VTuple):
@@ -309,7 +319,7 @@ def ite_val(c, a: V, b: V) -> V:
         if a.elem != b.elem:
             raise TypeError("ite over lists of different element kind")
     ca, cb = a.cols(), b.cols()
-    return a.kind.from_cols([z3.If(c, x, y) for x, y in zip(ca, cb)])
+    return a.kind.from_cols([zite(c, x, y) for x, y in zip(ca, cb)])
 
 
 def unify_num(a: V, b: V):
